@@ -37,13 +37,17 @@ def f32(x: float) -> float:
     return struct.unpack('<f', struct.pack('<f', x))[0]
 
 
-def EU(i: int) -> UUID:
+def EU(i: int, doc: dict = None) -> UUID:
     """UUID of element i of a document."""
+    if doc is not None and doc.get('uu') == 'nil_elem' and i == len(doc['els']) - 1 and i > 0:
+        return UUID(int=0)          # a real element may carry the all-zero UUID (NULL references are not UUIDs)
     return UUID(int=(0xC14E << 96) + 0x1000 + i)
 
 
-def SU(k: int) -> UUID:
+def SU(k: int, doc: dict = None) -> UUID:
     """UUID of stub k of a document."""
+    if doc is not None and doc.get('uu') == 'stub_twin' and k == 0:
+        return EU(len(doc['els']) - 1)     # a stub may name the UUID of an element that is also present in this file
     return UUID(int=(0xC145 << 96) + 0x2000 + k)
 
 
@@ -77,12 +81,17 @@ VALUES: dict[str, list] = {
     'string': [('ascii', 'abc'), ('nonascii', 'é'), ('empty', ''), ('quote', 'say "hi"'), ('bslash', 'a\\b'),
                ('nl', 'l1\nl2'), ('crlf', 'a\r\nb'), ('tab', '\tx'), ('astral', '\U0001F600x'), ('squote', "it's"),
                ('brace', '{[x]}'), ('comment', '//c'), ('trailbs', 'end\\'),
-               ('len255', 'x' * 255), ('len256', 'y' * 256), ('len600', 'ab' * 300), ('arrow', 'x --> y')],
+               ('len255', 'x' * 255), ('len256', 'y' * 256), ('len600', 'ab' * 300), ('arrow', 'x --> y'),
+               # longer than any read block, multi-byte characters at every alignment (2-, 3- and 4-byte sequences, shifted by 0..2 bytes)
+               ('u2x9000', 'é' * 9000), ('u2x9000s', 'x' + 'é' * 9000), ('u3x6000', '€' * 6000), ('u3x6000s', 'x' + '€' * 6000),
+               ('u3x6000t', 'xy' + '€' * 6000), ('u4x5000', 'q' + '\U0001F600' * 5000 + 'xyz' + '\U0001F600' * 100)],
     'binary': [('one', '00'), ('big300', BLOB300), ('empty', ''), ('ffq', 'ff0022')],
     'time': [('1p5', 15000 / 10000.0), ('max', (2 ** 31 - 1) / 10000.0), ('0', 0.0), ('neg', -22500 / 10000.0),
              ('tick', 1 / 10000.0), ('min', -2 ** 31 / 10000.0),
              # tick counts for which n / 10000.0 and n * 0.0001 differ in the last bit
-             ('t3', 3 / 10000.0), ('t13', 13 / 10000.0), ('t12345', 12345 / 10000.0), ('tneg17', -17 / 10000.0)],
+             ('t3', 3 / 10000.0), ('t13', 13 / 10000.0), ('t12345', 12345 / 10000.0), ('tneg17', -17 / 10000.0),
+             # text only (not whole ticks / beyond the binary field): values whose shortest decimal form has an exponent
+             ('texp_small', 1.5e-10), ('texp_big', 1.25e+20), ('texp_30', -2.5e+30), ('texp_m5', 2.5e-05)],
     'color': [('c123', [1, 2, 3, 255]), ('zero', [0, 0, 0, 0]), ('full', [255, 255, 255, 255]), ('mix', [255, 0, 128, 0])],
     'vector2': [('simple', [1.5, -2.25]), ('big', [16777216.0, -F32MAX]), ('zero', [0.0, 0.0])],
     'vector3': [('simple', [1.0, 2.0, 3.0]), ('mixed', [-0.5, 1024.25, 1000000.0]), ('zero', [0.0, 0.0, 0.0])],
@@ -98,7 +107,10 @@ VALUES: dict[str, list] = {
 TAG_OF = {vt: {core.jdump(v): t for t, v in lst} for vt, lst in VALUES.items()}
 
 # harness self-check of the representability rule for TIME (value * 10000 is an exact int32)
+TEXT_ONLY_TIMES = {1.5e-10, 1.25e+20, -2.5e+30, 2.5e-05}
 for _t, _v in VALUES['time']:
+    if _v in TEXT_ONLY_TIMES:
+        continue
     _n = round(_v * 10000.0)
     assert -2 ** 31 <= _n < 2 ** 31 and _n / 10000.0 == _v, _v
 for _vt in ('float', 'vector2', 'vector3', 'vector4', 'qangle', 'quaternion', 'vmatrix'):
@@ -168,7 +180,7 @@ FIXED_SIZE = {'int': 4, 'float': 4, 'bool': 1, 'time': 4, 'color': 4, 'vector2':
 # element payloads: int = element index, 'N' = NULL, 'S0'/'S1' = stub k.
 
 def build(doc: dict) -> Element:
-    els = [Element(el['n'], el['t'], EU(i)) for i, el in enumerate(doc['els'])]
+    els = [Element(el['n'], el['t'], EU(i, doc)) for i, el in enumerate(doc['els'])]
     stubs: dict[str, StubElement] = {}
 
     def ref(r):
@@ -176,7 +188,7 @@ def build(doc: dict) -> Element:
             return NULL
         if isinstance(r, str):
             if r not in stubs:
-                stubs[r] = StubElement.stub(SU(int(r[1:])))
+                stubs[r] = StubElement.stub(SU(int(r[1:]), doc))
             return stubs[r]
         return els[r]
 
@@ -309,8 +321,8 @@ def compare_graph(doc: dict, root, cfg: dict) -> None:
             raise Mismatch('elem_type', f'{path}: element type {p.type!r}, expected {el["t"]!r}')
         if p.name != el['n']:
             raise Mismatch('elem_name', f'{path}: element name {p.name!r}, expected {el["n"]!r}')
-        if not cull and p.uuid != EU(i):
-            raise Mismatch('uuid', f'{path}: UUID {p.uuid}, expected {EU(i)}')
+        if not cull and p.uuid != EU(i, doc):
+            raise Mismatch('uuid', f'{path}: UUID {p.uuid}, expected {EU(i, doc)}')
         items = [(k, a) for k, a in p.items() if k != 'name']
         got_names = [a.name for k, a in items]
         want_names = [a[0] for a in el['a']]
@@ -343,8 +355,8 @@ def compare_graph(doc: dict, root, cfg: dict) -> None:
                 elif isinstance(w, str):
                     if not (isinstance(g, StubElement) and g is not NULL):
                         raise Mismatch('stub', f'{apath}[{n}]: expected a stub, got {g!r}')
-                    if g.uuid != SU(int(w[1:])):
-                        raise Mismatch('stub_uuid', f'{apath}[{n}]: stub UUID {g.uuid}, expected {SU(int(w[1:]))}')
+                    if g.uuid != SU(int(w[1:]), doc):
+                        raise Mismatch('stub_uuid', f'{apath}[{n}]: stub UUID {g.uuid}, expected {SU(int(w[1:]), doc)}')
                 else:
                     work.append((w, g, f'{apath}[{n}]'))
 
@@ -488,9 +500,9 @@ def compare_wire(doc: dict, els: list, cfg: dict) -> None:
         spec_to_wire[i] = w
         wire_to_spec[w] = i
         el, wel = doc['els'][i], els[w]
-        if (wel['t'], wel['n'], wel['u']) != (el['t'], el['n'], EU(i)):
+        if (wel['t'], wel['n'], wel['u']) != (el['t'], el['n'], EU(i, doc)):
             raise WireError('elem_header', f"{path}: record ({wel['t']!r}, {wel['n']!r}, {wel['u']}), expected "
-                                           f"({el['t']!r}, {el['n']!r}, {EU(i)})")
+                                           f"({el['t']!r}, {el['n']!r}, {EU(i, doc)})")
         if [a[0] for a in wel['a']] != [a[0] for a in el['a']]:
             raise WireError('attr_names', f"{path}: attributes {[a[0] for a in wel['a']]!r}, expected "
                                           f"{[a[0] for a in el['a']]!r}")
@@ -504,7 +516,7 @@ def compare_wire(doc: dict, els: list, cfg: dict) -> None:
             for n, (g, x) in enumerate(zip(vals, want)):
                 if vt == VT_ELEMENT:
                     if x == 'N' or isinstance(x, str):
-                        exp = 'N' if x == 'N' else ('S', str(SU(int(x[1:]))))
+                        exp = 'N' if x == 'N' else ('S', str(SU(int(x[1:]), doc)))
                         if g != exp:
                             raise WireError('elem_ref', f'{apath}[{n}]: reference {g!r}, expected {exp!r}')
                     elif not isinstance(g, int):
@@ -623,6 +635,8 @@ def fclass(f) -> str:
         return 'namekey_cased'
     if f[0] == 'noname':
         return f'noname:{f[1]}'
+    if f[0] == 'uuids':
+        return f'uuids:{f[1]}'
     raise AssertionError(f)
 
 
@@ -701,7 +715,18 @@ def compose(feats):
         keys = [a[0].casefold() for a in el['a']]
         if 'name' in keys or len(keys) != len(set(keys)):
             return None          # `name` is the element's name slot; an element cannot hold two keys equal under casefold
-    return {'els': els}
+    doc = {'els': els}
+    uu = [f for f in feats if f[0] == 'uuids']
+    if uu:
+        if len(uu) > 1 or len(els) < 2:
+            return None
+        refs = [r for el in els for a in el['a'] if a[1] == VT_ELEMENT for r in ([a[3]] if a[2] == 's' else a[3])]
+        if uu[0][1] == 'stub_twin' and 'S0' not in refs:
+            return None
+        if uu[0][1] == 'nil_elem' and 'N' not in refs:
+            return None
+        doc['uu'] = uu[0][1]
+    return doc
 
 
 def reductions(feats):
@@ -774,6 +799,11 @@ def cfg_key(cfg: dict) -> str:
 
 def run_doc(doc: dict, cfg: dict):
     """-> (status, [(kind, what, detail)]).  Executes build -> export -> parse -> compare on the real code."""
+    if cfg['enc'] == 'bin' and any(vt == 'time' and any(v in TEXT_ONLY_TIMES for v in ([payload] if shape == 's' else payload))
+                                   for el in doc['els'] for _, vt, shape, payload in el['a']):
+        return 'not_applicable', []      # binary stores whole ticks in 32 bits: these values are defined for the text form only
+    if cfg['enc'] == 'kv2' and doc.get('uu') == 'stub_twin':
+        return 'not_applicable', []      # in text a reference is a UUID: one that names an element of the file IS that element
     root = build(doc)
     why_not = inexpressible(doc, cfg)
     buf = io.BytesIO()
@@ -1173,6 +1203,15 @@ REP_GRAPHS = [
     [[['a', []]]],                                      # empty element array
     [[['a', [1, 'N', 'S0']], ['s', 0]], [['s', 1]]],    # mixed
 ]
+# graphs used with the UUID features (a stub naming the UUID of an element of the same file; a real element with the all-zero UUID)
+UUID_GRAPHS = [
+    [[['s', 1], ['s', 'S0']], []],
+    [[['a', ['S0', 1, 'S0']]], [['s', 'S0']]],
+    [[['s', 'S0'], ['s', 1]], [['s', 'S1']]],
+    [[['s', 1], ['s', 'N']], []],
+    [[['a', ['N', 1, 'N']]], [['s', 'N']]],
+    [[['s', 'N'], ['a', [1, 2]]], [['s', 2]], [['s', 'N']]],
+]
 
 
 def val_singles():
@@ -1239,6 +1278,9 @@ def dmx_feature_lists(depth: int):
     for a in gr:
         for b in nk:
             yield [a, b]
+    for g in UUID_GRAPHS:
+        for mode in ('stub_twin', 'nil_elem'):
+            yield [['graph', g], ['uuids', mode]]
 
 
 KV_NAMES = ['a', 'A', 'b']
